@@ -29,6 +29,7 @@ SCORE_KINDS = [
     "mixed_f32_f64",  # one class float32, the other float64
     "uint",  # unsigned integer dtypes (quantised scores): differences wrap, negation is not available
     "int8wide",  # int8 spanning the whole dtype range: differences overflow
+    "float16",
 ]
 
 
@@ -110,6 +111,8 @@ def scores(rng, min_pos=0, min_neg=0, maxn=40, kinds=None, big=False):
                 dt = np.uint16
             allv = rng.permutation(max(250, npos + nneg))[: npos + nneg].astype(dt)
             pos, neg = allv[:npos], allv[npos:]
+    elif kind == "float16":
+        pos, neg = rng.normal(0.5, 1, npos).astype(np.float16), rng.normal(-0.5, 1, nneg).astype(np.float16)
     elif kind == "int8wide":
         pos, neg = rng.integers(-128, 128, npos).astype(np.int8), rng.integers(-128, 128, nneg).astype(np.int8)
     elif kind == "mixed_f32_f64":
